@@ -1,7 +1,9 @@
 package plugin
 
 import (
+	"bytes"
 	"log"
+	"math/big"
 	"sort"
 
 	ocr2keepers "github.com/smartcontractkit/chainlink-common/pkg/types/automation"
@@ -42,17 +44,26 @@ func (p *performables) add(observation ocr2keepersv3.AutomationObservation) {
 	initialCount := len(p.resultCount)
 	for _, result := range observation.Performable {
 		uid := result.UniqueID()
-		payloadCount, ok := p.resultCount[uid]
-		if !ok {
-			payloadCount = resultAndCount{
-				result: result,
-				count:  1,
+		for {
+			payloadCount, ok := p.resultCount[uid]
+			if !ok {
+				p.resultCount[uid] = resultAndCount{
+					result: result,
+					count:  1,
+				}
+				break
 			}
-		} else {
-			payloadCount.count++
+			if sameResult(payloadCount.result, result) {
+				payloadCount.count++
+				p.resultCount[uid] = payloadCount
+				break
+			}
+			// UniqueID is not injective (variable length fields are joined by a
+			// delimiter byte that may also occur inside them, GasAllocated goes
+			// through int64): results that differ in any field must not share a
+			// tally, so the differing result gets the next free key
+			uid += "+"
 		}
-
-		p.resultCount[uid] = payloadCount
 	}
 	p.logger.Printf("Added %d new results from %d performables", len(p.resultCount)-initialCount, len(observation.Performable))
 }
@@ -89,4 +100,36 @@ func (p *performables) set(outcome *ocr2keepersv3.AutomationOutcome) {
 	}
 	p.logger.Printf("Setting outcome.AgreedPerformables with %d performables", len(performable))
 	outcome.AgreedPerformables = performable
+}
+
+// sameResult reports whether two check results are identical in every field
+// that is sent on the wire and takes part in agreement.
+func sameResult(a, b ocr2keepers.CheckResult) bool {
+	if a.PipelineExecutionState != b.PipelineExecutionState ||
+		a.Retryable != b.Retryable ||
+		a.Eligible != b.Eligible ||
+		a.IneligibilityReason != b.IneligibilityReason ||
+		a.UpkeepID != b.UpkeepID ||
+		a.WorkID != b.WorkID ||
+		a.GasAllocated != b.GasAllocated ||
+		!bytes.Equal(a.PerformData, b.PerformData) ||
+		!sameBigInt(a.FastGasWei, b.FastGasWei) ||
+		!sameBigInt(a.LinkNative, b.LinkNative) {
+		return false
+	}
+	if a.Trigger.BlockNumber != b.Trigger.BlockNumber || a.Trigger.BlockHash != b.Trigger.BlockHash {
+		return false
+	}
+	ea, eb := a.Trigger.LogTriggerExtension, b.Trigger.LogTriggerExtension
+	if ea == nil || eb == nil {
+		return ea == nil && eb == nil
+	}
+	return *ea == *eb
+}
+
+func sameBigInt(a, b *big.Int) bool {
+	if a == nil || b == nil {
+		return a == nil && b == nil
+	}
+	return a.Cmp(b) == 0
 }
